@@ -74,8 +74,10 @@
                              FALSE (repaired): the splitter state keeps the
                              restored cursor of every tracked shard; a split state
                              reported by a reader supersedes it.
-   Non-vacuity switch (never the code): Bug_AtSeq = iterators are fetched AT the
-   cursor instead of AFTER it.                                              *)
+   Non-vacuity switches (never the code): Bug_AtSeq = iterators are fetched AT
+   the cursor instead of AFTER it; Bug_StaleSplitterCursor = on restore the
+   cursor kept in the splitter state wins over the reader's split state (the
+   wrong way round); its counterexample schedules are replayed on the code too.                                              *)
 EXTENDS Integers, Sequences, FiniteSets, TLC, Json
 
 CONSTANTS NInit,       \* shards of the new stream
@@ -87,7 +89,7 @@ CONSTANTS NInit,       \* shards of the new stream
           MaxCkpts,    \* completed checkpoints per behaviour
           MaxLen,      \* steps per behaviour (generation only)
           LogOn,       \* FALSE: no history (exhaustive runs)
-          Dev_StateAtCompletion, Pre_CursorAtReaderOnly, Bug_AtSeq
+          Dev_StateAtCompletion, Pre_CursorAtReaderOnly, Bug_AtSeq, Bug_StaleSplitterCursor
 
 VARIABLES shards,      \* the stream: <<[lo, hi, par, closed, n], ...>>
           up, R,       \* a splitter incarnation is running, its runner count
@@ -271,7 +273,8 @@ Read(r, lim) ==
          gap  == q > em[s] /\ e > q
          erl  == e > q /\ \E p \in Par(s) : em[p] < shards[p].n
          b    == (IF rep THEN {[k |-> "repeat", s |-> s,
-                               dev |-> IF Bug_AtSeq THEN "Bug_AtSeq" ELSE IF s \in whyC THEN "Pre_CursorAtReaderOnly" ELSE "?"]} ELSE {})
+                               dev |-> IF Bug_AtSeq THEN "Bug_AtSeq" ELSE IF Bug_StaleSplitterCursor THEN "Bug_StaleSplitterCursor"
+                                       ELSE IF s \in whyC THEN "Pre_CursorAtReaderOnly" ELSE "?"]} ELSE {})
                  \cup (IF gap THEN {[k |-> "gap", s |-> s, dev |-> "?"]} ELSE {})
                  \cup (IF erl THEN {[k |-> "early", s |-> s,
                                      dev |-> IF {p \in Par(s) : em[p] < shards[p].n} \cap whyS # {} THEN "Dev_StateAtCompletion" ELSE "?"]} ELSE {})
@@ -321,7 +324,8 @@ Complete ==
   /\ LET finK == pfin
          late == fin \ finK
          kn   == IF Dev_StateAtCompletion THEN known ELSE (known \cup late)
-         cur1 == [s \in All |-> IF pcur[s] >= 0 THEN pcur[s]
+         cur1 == [s \in All |-> IF Bug_StaleSplitterCursor /\ s \in kn /\ scur[s] > 0 THEN scur[s]
+                                ELSE IF pcur[s] >= 0 THEN pcur[s]
                                 ELSE IF ~Pre_CursorAtReaderOnly /\ s \in kn THEN scur[s] ELSE -1]
          drop == {s \in kn : pcur[s] < 0 /\ scur[s] > 0}
      IN  /\ K' = [has |-> TRUE, known |-> kn, last |-> last, cur |-> cur1, em |-> pcut, fin |-> finK,
